@@ -156,7 +156,10 @@ public:
           {
             Job job = {0, 0};
             if (_queue.push(job))
+            {
               --_threadCount;
+              _enqueuedSignal.set(); // the request may sit in front of jobs whose wake-up the workers have already used up
+            }
           }
           for (PoolList<ThreadContext>::Iterator i = _threads.begin(), end = _threads.end(); i != end;)
           {
